@@ -131,7 +131,7 @@ def main():
         outdir = f"/tmp/seed-{prop}-out"
         for n in (1, 2):
             r = confirm(prop, n, outdir)
-            print(json.dumps(r)[:600], flush=True)
+            r.pop("demo_patched_tail", None); print(json.dumps(r), flush=True)
 
 
 main()
